@@ -1,0 +1,200 @@
+//go:build verif
+
+// Contracts for package nebula, checked by /verif/govc (contract-based
+// deductive verification). Compiled only with -tags verif. The //@ blocks are
+// the contracts; the Go functions are specification functions (pure, loop
+// free) and lemma clients.
+
+package nebula
+
+import (
+	"log/slog"
+
+	"github.com/rcrowley/go-metrics"
+)
+
+// packages whose types are named by contracts
+var (
+	_ *slog.Logger
+	_ metrics.Counter
+)
+
+// ---- contract vocabulary (evaluated symbolically by govc) ----
+
+func old[T any](x T) T                  { return x }
+func implies(a, b bool) bool            { return !a || b }
+func iff(a, b bool) bool                { return a == b }
+func forall[T any](f func(T) bool) bool { return true }
+func exists[T any](f func(T) bool) bool { return true }
+func elems[T any](s []T, r ...int) bool { return true }
+func fresh[T any](p *T) bool            { return true }
+func ite[T any](c bool, a, b T) T {
+	if c {
+		return a
+	}
+	return b
+}
+
+// =====================================================================
+// C11 — the replay window accepts each counter exactly once when in range
+// =====================================================================
+//
+// Abstract state: H(k) = "counter k has been accepted" (H(0) holds initially:
+// there is no counter 0), and max = b.current. H is a rigid logical map: each
+// contract below holds for every H that satisfies the representation
+// invariant, so by induction over calls it holds for every history.
+//
+// Representation invariant, pointwise in k (specRepAt):
+//   k > current              => not accepted
+//   k in window of current   => bit(k) == accepted(k)
+// plus H(current), and well-formedness of the bitmap (specBitsWF).
+
+//@ func specBitsWF
+//@   pure
+//@ func specWords
+//@   pure
+//@ func specInWindow
+//@   pure
+//@ func specGet
+//@   pure
+//@ func specBit
+//@   pure
+//@ func specRepAt
+//@   pure
+//@ func specInCirc
+//@   pure
+
+func specWords(length uint64) uint64 {
+	if length>>6 == 0 {
+		return 1
+	}
+	return length >> 6
+}
+
+// specBitsWF: length is a power of two (at most 2^32), the mask matches, the
+// bitmap has exactly one bit per slot, the counters are present.
+func specBitsWF(b *Bits) bool {
+	return b.length != 0 && b.length&(b.length-1) == 0 && b.length <= 1<<32 && b.lengthMask == b.length-1 &&
+		uint64(len(b.bits)) == specWords(b.length) &&
+		b.lostCounter != nil && b.dupeCounter != nil && b.outOfWindowCounter != nil
+}
+
+// specInWindow: k is one of the `length` counters ending at cur (or, before
+// the window has slid, any counter up to cur).
+func specInWindow(cur, length, k uint64) bool {
+	return k <= cur && (cur < length || k > cur-length)
+}
+
+// specBit: bit at circular position q (q < length).
+func specBit(b *Bits, q uint64) bool {
+	return b.bits[q>>6]&(uint64(1)<<(q&63)) != 0
+}
+
+// specGet: bit of counter k.
+func specGet(b *Bits, k uint64) bool {
+	return specBit(b, k&b.lengthMask)
+}
+
+func specRepAt(b *Bits, k uint64, h bool) bool {
+	return implies(k > b.current, !h) && implies(specInWindow(b.current, b.length, k), specGet(b, k) == h)
+}
+
+// specInCirc: q is among the count circular positions starting at start.
+func specInCirc(q, start, count, length uint64) bool {
+	return count >= length || ((q-start)&(length-1)) < count
+}
+
+//@ func github.com/rcrowley/go-metrics.GetOrRegisterCounter
+//@   trusted go-metrics registry.go: returns the registered or a newly created Counter, never nil
+//@   ensures result != nil
+//@   assigns nothing
+
+//@ func NewBits
+//@   props C11
+//@   ghost k uint64
+//@   requires length != 0 && length&(length-1) == 0 && length <= 1<<32
+//@   ensures[fresh] result != nil && fresh(result)
+//@   ensures[wf]    specBitsWF(result) && result.length == length && result.current == 0
+//@   ensures[rep]   specRepAt(result, k, k == 0)
+//@   assigns nothing
+
+//@ func (*Bits).get
+//@   props C11
+//@   requires b != nil && specBitsWF(b)
+//@   ensures result == specGet(b, i)
+//@   assigns nothing
+
+//@ func (*Bits).set
+//@   props C11
+//@   ghost q uint64
+//@   requires b != nil && specBitsWF(b)
+//@   ensures[bits] implies(q < b.length, specBit(b, q) == (q == i&b.lengthMask || old(specBit(b, q))))
+//@   ensures[wf]   specBitsWF(b)
+//@   assigns elems(b.bits)
+
+//@ func (*Bits).strictlyWithinWindow
+//@   props C11
+//@   requires b != nil && specBitsWF(b) && i <= b.current
+//@   ensures result == specInWindow(b.current, b.length, i)
+//@   assigns nothing
+
+// clearRange, pointwise in an arbitrary circular position q: the bit at q is
+// cleared iff q is one of the count positions from startPos, else unchanged.
+//@ func (*Bits).clearRange
+//@   props C11
+//@   ghost q uint64
+//@   requires b != nil && specBitsWF(b) && count >= 1 && startPos < b.length
+//@   ensures[bits] implies(q < b.length, specBit(b, q) == (!specInCirc(q, startPos, count, b.length) && old(specBit(b, q))))
+//@   ensures[wf]   specBitsWF(b)
+//@   assigns elems(b.bits)
+//@   loop 1 invariant true
+//@   loop 2 invariant[shape] remaining <= count && count < b.length && pos == (startPos+(count-remaining))&b.lengthMask && (remaining == 0 || pos&63 == 0) && specBitsWF(b)
+//@   loop 2 invariant[bits]  implies(q < b.length, specBit(b, q) == (!specInCirc(q, startPos, count-remaining, b.length) && old(specBit(b, q))))
+//@   loop 2 decreases remaining
+//@   loop 2 assigns elems(b.bits)
+
+// Check / Update / updateSlow are stated for an arbitrary history H and,
+// pointwise, for an arbitrary counter k: if the representation invariant holds
+// at k (and at the incoming counter i) before the call, the verdict is the
+// one the property demands and the invariant holds at k afterwards for the
+// extended history H + {i if accepted}. k and H are arbitrary, so the
+// invariant is preserved for every counter and every history.
+
+//@ func (*Bits).Check
+//@   props C11
+//@   ghost H func(uint64) bool
+//@   requires b != nil && l != nil && specBitsWF(b)
+//@   requires[rep] specRepAt(b, i, H(i)) && H(b.current)
+//@   ensures[verdict] result == (!H(i) && (i > b.current || specInWindow(b.current, b.length, i)))
+//@   assigns nothing
+
+//@ func (*Bits).Update
+//@   props C11
+//@   ghost H func(uint64) bool
+//@   ghost k uint64
+//@   old cur0 = b.current
+//@   requires b != nil && l != nil && specBitsWF(b)
+//@   requires[rep] specRepAt(b, k, H(k)) && specRepAt(b, i, H(i)) && H(b.current)
+//@   ensures[verdict] result == (!H(i) && (i > cur0 || specInWindow(cur0, b.length, i)))
+//@   ensures[current] b.current == ite(result && i > cur0, i, cur0)
+//@   ensures[wf]      specBitsWF(b) && b.length == old(b.length)
+//@   ensures[rep]     specRepAt(b, k, H(k) || (k == i && result))
+//@   ensures[top]     H(b.current) || (b.current == i && result)
+//@   assigns b.current, elems(b.bits)
+
+//@ func (*Bits).updateSlow
+//@   props C11
+//@   ghost H func(uint64) bool
+//@   ghost k uint64
+//@   old cur0 = b.current
+//@   requires b != nil && l != nil && specBitsWF(b)
+//@   requires[rep] specRepAt(b, k, H(k)) && specRepAt(b, i, H(i)) && H(b.current)
+//@   ensures[verdict] result == (!H(i) && (i > cur0 || specInWindow(cur0, b.length, i)))
+//@   ensures[current] b.current == ite(result && i > cur0, i, cur0)
+//@   ensures[wf]      specBitsWF(b) && b.length == old(b.length)
+//@   ensures[rep]     specRepAt(b, k, H(k) || (k == i && result))
+//@   ensures[top]     H(b.current) || (b.current == i && result)
+//@   assigns b.current, elems(b.bits)
+//@   callghost clearRange q = k & b.lengthMask
+//@   callghost set q = k & b.lengthMask
+//@   loop 1 invariant true
